@@ -303,6 +303,9 @@ func (g *Graph) EdgesNotBoth(a, b Atom) []Edge {
 			}
 		}
 	}
+	for _, e := range g.EdgesEntailing(AtomWant{a, false}, AtomWant{b, false}) {
+		set[e] = true
+	}
 	var out []Edge
 	for e := range set {
 		out = append(out, e)
@@ -341,6 +344,9 @@ func (g *Graph) EdgesEither(a, b Atom) []Edge {
 				}
 			}
 		}
+	}
+	for _, e := range g.EdgesEntailing(AtomWant{a, true}, AtomWant{b, true}) {
+		set[e] = true
 	}
 	var out []Edge
 	for e := range set {
@@ -413,6 +419,13 @@ func (g *Graph) EdgesRefutingAll(atoms ...Atom) []Edge {
 				}
 			}
 		}
+	}
+	var lits []AtomWant
+	for _, a := range atoms {
+		lits = append(lits, AtomWant{a, false})
+	}
+	for _, e := range g.EdgesEntailing(lits...) {
+		set[e] = true
 	}
 	var out []Edge
 	for e := range set {
